@@ -323,40 +323,8 @@ def check(run: Run) -> None:
                 if not same(lhs, rhs):
                     run.violate("X2", f"{VC}:{b}->C:frame[{i},{j}]", vmod, M[(b, "C")][1],
                                 f"base vector {i} of the {NAMES[b]} system has Cartesian component {j} = {lhs!r}; the normalised position derivative is {rhs!r}")
-    # ---- X4
-    w = World(run.src)
-    cp = Fn(w, PKGM + ".convert", "convert_point")
-    run.ob("X4", "convert_point")
-    ok = False
-    for n, c in [(n, c) for n in cp.cfg.stmt_nodes() for c in node_calls(n) if dotted(c.func) == "express_base_scalars"]:
-        if len(c.args) == 2 and dotted(c.args[0]) == "new_system" and dotted(c.args[1]) == "point.system":
-            tgt = n.ast.targets[0].id if isinstance(n.ast, ast.Assign) and isinstance(n.ast.targets[0], ast.Name) else None
-            for r in cp.cfg.returns():
-                sl = cp.slice(r, r.ast.value)
-                uses_values = any(isinstance(x, ast.Call) and isinstance(x.func, ast.Attribute) and x.func.attr == "values" and dotted(x.func.value) == tgt for e in sl.exprs for x in ast.walk(e))
-                subs_coords = any(isinstance(x, ast.Call) and isinstance(x.func, ast.Attribute) and x.func.attr == "subs" and [dotted(a) for a in x.args] == ["point.coordinates"] for e in sl.exprs for x in ast.walk(e))
-                ctor = isinstance(r.ast.value, ast.Call) and dotted(r.ast.value.func) == "AppliedPoint" and len(r.ast.value.args) == 2 and dotted(r.ast.value.args[1]) == "new_system"
-                if uses_values and subs_coords and ctor:
-                    ok = True
-    if not ok:
-        run.violate("X4", f"{PKGM}.convert:convert_point", cp.mod, cp.fn,
-                    "convert_point does not build AppliedPoint([e.subs(point.coordinates) for e in express_base_scalars(new_system, point.system).values()], new_system)")
-    cv = Fn(w, PKGM + ".convert", "convert_vector")
-    run.ob("X4", "convert_vector")
-    ok = False
-    for n, c in [(n, c) for n in cv.cfg.stmt_nodes() for c in node_calls(n) if dotted(c.func) == "express_base_vectors"]:
-        oa, na = kw(c, "old_args"), kw(c, "new_args")
-        if len(c.args) == 2 and dotted(c.args[0]) == "old_point.system" and dotted(c.args[1]) == "new_system" and oa is not None and na is not None:
-            so, sn = cv.slice(n, oa), cv.slice(n, na)
-            if so.params == {"old_point"} and "convert_point" in sn.calls and {"old_point", "new_system"} <= sn.params:
-                for r in cv.cfg.returns():
-                    sl = cv.slice(r, r.ast.value)
-                    subs = [x for e in sl.exprs for x in ast.walk(e) if isinstance(x, ast.Call) and isinstance(x.func, ast.Attribute) and x.func.attr == "subs"]
-                    if "vector" in sl.params and "express_base_vectors" in sl.calls and len(subs) >= 2 and any(".items" in cc or cc.endswith("coordinates.items") for cc in sl.calls):
-                        ok = True
-    if not ok:
-        run.violate("X4", f"{PKGM}.convert:convert_vector", cv.mod, cv.fn,
-                    "convert_vector does not substitute express_base_vectors(old_point.system, new_system, old_args=(old_point,), new_args=(new_point,)) and then the new coordinates")
+    # ---- X4: convert_point / convert_vector evaluated abstractly against the tables read above
+    _x4(run, S, M)
     # ---- X5
     for modname in (SC, VC):
         m = run.src.need(modname)
@@ -373,3 +341,146 @@ def check(run: Run) -> None:
                         good = True
         if not good:
             run.violate("X5", f"{modname}:fall-through", m, fall[0] if fall else m.tree, "the fall-through dispatch no longer raises TypeError when the two system types differ")
+
+
+class _XSys:
+
+    def __init__(self, tag: str):
+        self.tag = tag
+
+
+class _XPoint:
+
+    def __init__(self, coords: list, system: _XSys):
+        self.system = system
+        self.coords = {sv(system.tag, k): c for k, c in zip(range(3), coords)}  # AppliedPoint._prepare: zip(base_scalars, coordinates)
+
+
+class _Stop(Exception):
+    pass
+
+
+def _x4(run: Run, S: dict, M: dict) -> None:
+    from ..pyreader import PyReader, Raised
+    cm = run.src.need(PKGM + ".convert")
+
+    class ConvReader(PyReader):
+
+        def __init__(self):
+            super().__init__(cm.tree, "convert.py")
+            self.vector_calls: list = []
+
+        def hook_attr(self, base, attr, n):
+            if isinstance(base, _XPoint) and attr in ("system", "_system"):
+                return base.system
+            if isinstance(base, _XPoint) and attr in ("coordinates", "_coordinates"):
+                return dict(base.coords)
+            if isinstance(base, _XSys) and attr == "base_scalars":
+                return [sv(base.tag, k) for k in range(3)]
+            return NotImplemented
+
+        def hook_call(self, n, env, fns):
+            f = dotted(n.func) or ""
+            if f == "express_base_scalars" and len(n.args) == 2 and not n.keywords:
+                a, b = self.ev(n.args[0], env, fns), self.ev(n.args[1], env, fns)
+                if not (isinstance(a, _XSys) and isinstance(b, _XSys)):
+                    self.fail(n, "express_base_scalars of something that is not a coordinate system")
+                if a.tag == b.tag:
+                    return {sv(a.tag, k): sv(a.tag, k) for k in range(3)}
+                return {sv(a.tag, k): S[(a.tag, b.tag)][0][k] for k in range(3)}  # a's scalars as functions of b's
+            if f == "express_base_vectors" and len(n.args) == 2:
+                a, b = self.ev(n.args[0], env, fns), self.ev(n.args[1], env, fns)
+                kws = {k.arg: self.ev(k.value, env, fns) for k in n.keywords}
+                self.vector_calls.append((a, b, kws))
+                if not (isinstance(a, _XSys) and isinstance(b, _XSys)):
+                    self.fail(n, "express_base_vectors of something that is not a coordinate system")
+                if a.tag == b.tag:
+                    return {var(f"bv_{a.tag}{k}"): var(f"bv_{b.tag}{k}") for k in range(3)}
+                out = {}
+                for k in range(3):
+                    acc = num(0)
+                    for jx in range(3):
+                        acc = op("add", acc, op("mul", M[(a.tag, b.tag)][0][k][jx], var(f"bv_{b.tag}{jx}")))
+                    out[var(f"bv_{a.tag}{k}")] = acc
+                return out
+            if f == "AppliedPoint" and len(n.args) == 2:
+                coords, sysv = self.ev(n.args[0], env, fns), self.ev(n.args[1], env, fns)
+                if not (isinstance(coords, list) and isinstance(sysv, _XSys)):
+                    self.fail(n, "AppliedPoint(...) arguments")
+                return _XPoint(coords, sysv)
+            return NotImplemented
+
+    for a in "CYS":
+        for b in "CYS":
+            old, new = _XSys(a), _XSys(b)
+            for selfref in (False, "own", "new"):
+                # coordinates of the point: generic values; or the base scalars of the point's own system, permuted (q1, q2, q0); or those of the new system
+                if selfref == "new" and a == b:
+                    continue
+                coords = [sv(a if selfref == "own" else b, (k + 1) % 3) if selfref else var(f"p{k}") for k in range(3)]
+                expect = [substitute(t, {f"{a}{k}": coords[k] for k in range(3)}) for t in (S[(b, a)][0] if a != b else [sv(a, k) for k in range(3)])]
+                R = ConvReader()
+                run.ob("X4", f"convert_point:{a}->{b}{':coordinates-mention-' + selfref + '-scalars' if selfref else ''}")
+                try:
+                    got = R.call("convert_point", [_XPoint(coords, old), new])
+                except Raised as r:
+                    got = r
+                ok = isinstance(got, _XPoint) and got.system is new and list(got.coords) == [sv(b, k) for k in range(3)] \
+                    and all(_eq_or_refuse(got.coords[sv(b, k)], expect[k]) for k in range(3)) and not R.hazards
+                if not ok:
+                    run.violate("X4", f"{PKGM}.convert:convert_point:{'sequential' if selfref else 'wiring'}", cm, cm.tree,
+                                f"convert_point {NAMES[a]} -> {NAMES[b]} does not return the point whose coordinates are the {NAMES[b]} scalars expressed in the {NAMES[a]} ones with "
+                                f"all of the point's coordinates inserted at once" + (" (coordinates that mention base scalars are substituted again)" if selfref else "")
+                                + (f": {R.hazards[0][1]}" if R.hazards else ""))
+                    break
+                # a vector attached to that point
+                vec = num(0)
+                for k in range(3):
+                    vec = op("add", vec, op("mul", var(f"w{k}"), var(f"bv_{a}{k}")))
+                R = ConvReader()
+                run.ob("X4", f"convert_vector:{a}->{b}{':coordinates-mention-' + selfref + '-scalars' if selfref else ''}")
+                oldp = _XPoint(coords, old)
+                try:
+                    gv = R.call("convert_vector", [vec, oldp, new])
+                except Raised as r:
+                    gv = r
+                if a == b:
+                    want = substitute(vec, {})
+                else:
+                    want = num(0)
+                    for k in range(3):
+                        for jx in range(3):
+                            coef = substitute(M[(a, b)][0][k][jx], {f"{b}{i}": expect[i] for i in range(3)})
+                            want = op("add", want, op("mul", op("mul", var(f"w{k}"), coef), var(f"bv_{b}{jx}")))
+                wired = len(R.vector_calls) == 1 and R.vector_calls[0][0] is old and R.vector_calls[0][1] is new \
+                    and isinstance(R.vector_calls[0][2].get("old_args"), list) and R.vector_calls[0][2]["old_args"] == [oldp] \
+                    and isinstance(R.vector_calls[0][2].get("new_args"), list) and len(R.vector_calls[0][2]["new_args"]) == 1 \
+                    and isinstance(R.vector_calls[0][2]["new_args"][0], _XPoint) and R.vector_calls[0][2]["new_args"][0].system is new
+                ok = isinstance(gv, (T, int)) and wired and not R.hazards and _same_linear(gv, want, [f"w{k}" for k in range(3)], [f"bv_{b}{k}" for k in range(3)])
+                if not ok:
+                    run.violate("X4", f"{PKGM}.convert:convert_vector:{'sequential' if selfref else 'wiring'}", cm, cm.tree,
+                                f"convert_vector {NAMES[a]} -> {NAMES[b]} does not return the vector with the {NAMES[a]} base vectors (at the old point) expressed through the {NAMES[b]} ones "
+                                f"(at the converted point) and the converted coordinates inserted at once"
+                                + (f"; express_base_vectors was called as {[(x.tag if isinstance(x, _XSys) else x, y.tag if isinstance(y, _XSys) else y, sorted(k)) for x, y, k in R.vector_calls]}" if not wired else "")
+                                + (f": {R.hazards[0][1]}" if R.hazards else ""))
+                    break
+
+
+def _same_linear(x, y, ws: list, vs: list) -> bool:
+    """equality of two terms that are bilinear in the variables ws x vs, decided coefficient by coefficient"""
+    if isinstance(x, int):
+        x = num(x)
+    for w_ in ws:
+        for v_ in vs:
+            env = {n: num(1 if n in (w_, v_) else 0) for n in ws + vs}
+            if not same_terms(substitute(x, env), substitute(y, env)):
+                return False
+    # nothing outside the bilinear part: all w = 0 or all base vectors = 0 gives 0
+    zero_w = {n: num(0) for n in ws}
+    return same_terms(substitute(x, zero_w), substitute(y, zero_w))
+
+
+def _eq_or_refuse(x, y) -> bool:
+    if not isinstance(x, (T, int)):
+        return False
+    return same_terms(x, y)
